@@ -257,7 +257,32 @@ fn len_space(world: Arc<World>, table: RewriteTable, tier: Tier) -> CaseSpace<Le
             let label = format!("{} [original {} bytes, normalised {} bytes]", c.describe(), orig, norm);
             o.evaluations += 1;
             o.nontrivial = true;
-            let r = catch(|| analyze(&w.dict, Mode::C, &text));
+            // the same tokenizer is then used for a small probe: a rejected input must leave it usable
+            let r = catch(|| {
+                let mut tok = sudachi::analysis::stateful_tokenizer::StatefulTokenizer::new(w.dict.clone(), Mode::C);
+                let mut list = MorphemeList::empty(w.dict.clone());
+                tok.reset().push_str(&text);
+                let first = match tok.do_tokenize() {
+                    Ok(()) => list.collect_results(&mut tok).map(|_| toks_of(&list)).map_err(|e| classify_err(&e)),
+                    Err(e) => Err(classify_err(&e)),
+                };
+                tok.reset().push_str("東京都に行く");
+                let probe = match tok.do_tokenize() {
+                    Ok(()) => list.collect_results(&mut tok).map(|_| toks_of(&list)).map_err(|e| classify_err(&e)),
+                    Err(e) => Err(classify_err(&e)),
+                };
+                (first, probe)
+            });
+            let r = match r {
+                Err(p) => Err(p),
+                Ok((first, probe)) => {
+                    let fresh = analyze(&w.dict, Mode::C, "東京都に行く");
+                    if probe != fresh {
+                        o.fail(Failure::new("probe-after-boundary-input-differs", format!("{}: analysing a probe on the same tokenizer afterwards gives {:?}, a fresh tokenizer gives {:?}", label, probe.as_ref().map(|t| t.len()), fresh.as_ref().map(|t| t.len()))));
+                    }
+                    Ok(first)
+                }
+            };
             match r {
                 Err(p) => o.fail(Failure::panic(&label, &p)),
                 Ok(Err(AErr::TooLong(a, b))) => {
@@ -299,6 +324,14 @@ fn cost_world(name: &str, word_cost: i32, conn: i32) -> Arc<World> {
     Arc::new(World::build(s).expect("cost world"))
 }
 
+fn cost_of_world(name: &str) -> (i32, i32) {
+    match name {
+        "W-cost-max" => (32767, 32767),
+        "W-cost-min" => (-32768, -32768),
+        _ => (32767, -32768),
+    }
+}
+
 fn cost_space(tier: Tier) -> CaseSpace<(Arc<World>, usize)> {
     let mut cases = Vec::new();
     for (name, wc, cc) in [("W-cost-max", 32767, 32767), ("W-cost-min", -32768, -32768), ("W-cost-mixed", 32767, -32768)] {
@@ -320,12 +353,28 @@ fn cost_space(tier: Tier) -> CaseSpace<(Arc<World>, usize)> {
             o.evaluations += 1;
             o.nontrivial = true;
             let label = format!("{}: \"1\" x {}", w.name(), n);
+            // does the exact path cost of the only reasonable segmentation leave the i32 range?
+            let (wc, cc) = cost_of_world(w.name());
+            let exact: i64 = (*n as i64) * (wc as i64) + (*n as i64 - 1) * (cc as i64);
+            let beyond_i32 = exact > i32::MAX as i64 || exact < i32::MIN as i64;
             match catch(|| analyze(&w.dict, Mode::C, &text)) {
-                Err(p) => o.fail(Failure::panic(&label, &p)),
+                Err(p) => {
+                    let mut f = Failure::panic(&label, &p);
+                    if beyond_i32 && p.message.contains("overflow") {
+                        // the documented-limit input whose true path cost does not fit the cost type
+                        f.kind = "panic-path-cost-beyond-i32".into();
+                    }
+                    o.fail(f)
+                }
                 Ok(Err(e)) => o.fail(Failure::new("unexpected-error", format!("{} -> {:?}", label, e))),
                 Ok(Ok(toks)) => {
                     for f in partition_failures(&text, &toks, 0, text.len(), &label) {
                         o.fail(trim(f));
+                    }
+                    if let Some(last) = toks.last() {
+                        if !beyond_i32 && toks.len() == *n && last.total_cost as i64 != exact {
+                            o.fail(Failure::new("cumulative-cost", format!("{}: total_cost {} but exact arithmetic gives {}", label, last.total_cost, exact)));
+                        }
                     }
                     o.observe(&toks.len());
                 }
